@@ -1,0 +1,17 @@
+//go:build verif
+// +build verif
+
+package jsonpath
+
+// VerifHook, when non-nil, is called at the instrumented points of a verification build
+// (go build -tags verif).  point: 1 Parse entered, 2 parseMutex locked, 3 about to unlock,
+// 4 parsed function entered, 5 parsed function returns, 6 result container taken from the pool,
+// 7 result container about to be put back, 8 sorted-key slice taken, 9 sorted-key slice put back.
+// id identifies the pooled object (a pointer), nil otherwise.
+var VerifHook func(point int, id interface{})
+
+func verifHook(point int, id interface{}) {
+	if h := VerifHook; h != nil {
+		h(point, id)
+	}
+}
